@@ -149,17 +149,27 @@ def cpp_facts():
     return facts
 
 
-def _is_set_expr(node, set_names):
+ORDER_EXPOSING_FUNCS = {"list", "tuple", "enumerate", "iter", "next", "zip", "map", "filter", "str", "repr", "reversed"}
+ORDER_EXPOSING_METHODS = {"extend", "join", "fromkeys", "writelines"}
+
+
+def _is_set_expr(node, set_names, set_funcs=frozenset()):
     if isinstance(node, (ast.Set, ast.SetComp)):
         return True
     if isinstance(node, ast.Call) and isinstance(node.func, ast.Name) and node.func.id in ("set", "frozenset"):
         return True
+    if isinstance(node, ast.Call) and isinstance(node.func, ast.Name) and node.func.id in set_funcs:
+        return True
+    if isinstance(node, ast.Call) and isinstance(node.func, ast.Attribute) and node.func.attr in set_funcs:
+        return True
     if isinstance(node, ast.Name) and node.id in set_names:
         return True
     if isinstance(node, ast.BinOp) and isinstance(node.op, (ast.Sub, ast.BitOr, ast.BitAnd, ast.BitXor)):
-        return _is_set_expr(node.left, set_names) or _is_set_expr(node.right, set_names)
-    if isinstance(node, ast.Call) and isinstance(node.func, ast.Attribute) and node.func.attr in ("union", "intersection", "difference", "symmetric_difference"):
-        return _is_set_expr(node.func.value, set_names)
+        return _is_set_expr(node.left, set_names, set_funcs) or _is_set_expr(node.right, set_names, set_funcs)
+    if isinstance(node, ast.IfExp):
+        return _is_set_expr(node.body, set_names, set_funcs) or _is_set_expr(node.orelse, set_names, set_funcs)
+    if isinstance(node, ast.Call) and isinstance(node.func, ast.Attribute) and node.func.attr in ("union", "intersection", "difference", "symmetric_difference", "copy"):
+        return _is_set_expr(node.func.value, set_names, set_funcs)
     return False
 
 
@@ -181,31 +191,57 @@ def _order_insensitive(stmts):
 
 
 def set_sites_sorted():
-    """C06: no loop of the generator iterates a set in hash order: every `for` / comprehension over a set-valued
-    expression (a `set(...)` call, set literal / comprehension, set algebra, or a name bound to one in the module)
-    goes through `sorted(...)`.  Returns (all sorted and at least one site, number of sites)."""
+    """C06: nothing in the generator exposes the hash order of a set.  A set-valued expression is a `set(...)` call, a
+    set literal / comprehension, set algebra, a name bound to one in the module, or a call of a function (of any kojen
+    module) that returns one.  Its order is exposed by a `for` / comprehension over it (unless the body only adds to /
+    removes from sets), by `list / tuple / enumerate / iter / next / zip / map / filter / str / repr (...)`, by
+    `x.extend / join / fromkeys / writelines (...)`, by `+=`, by `*`-unpacking and by `.pop()`; `sorted(...)` makes it
+    defined.  Returns (no exposing site and at least one sorted site, number of sites)."""
     n_sorted = n_raw = 0
+    mods = {}
     for mod in sorted(f for f in os.listdir(KOJEN) if f.endswith(".py")):
         try:
-            tree = ast.parse(open(os.path.join(KOJEN, mod)).read())
+            mods[mod] = ast.parse(open(os.path.join(KOJEN, mod)).read())
         except SyntaxError:
             continue
+    set_funcs = set()
+    for _ in range(4):      # functions returning sets, to a fixed point over all modules
+        for tree in mods.values():
+            for fn in [n for n in ast.walk(tree) if isinstance(n, (ast.FunctionDef, ast.AsyncFunctionDef))]:
+                local = set()
+                for n in ast.walk(fn):
+                    if isinstance(n, ast.Assign) and _is_set_expr(n.value, local, set_funcs):
+                        local.update(t.id for t in n.targets if isinstance(t, ast.Name))
+                if any(isinstance(n, ast.Return) and n.value is not None and _is_set_expr(n.value, local, set_funcs) for n in ast.walk(fn)):
+                    set_funcs.add(fn.name)
+    for mod, tree in mods.items():
         set_names = {"setOfClasses", "setOfProjectDependencies"} if mod in ("LanguageCPP.py", "LanguageCsharp.py") else set()
-        for node in ast.walk(tree):
-            if isinstance(node, ast.Assign) and _is_set_expr(node.value, set()):
-                for t in node.targets:
-                    if isinstance(t, ast.Name):
-                        set_names.add(t.id)
+        for _ in range(2):
+            for node in ast.walk(tree):
+                if isinstance(node, ast.Assign) and _is_set_expr(node.value, set_names, set_funcs):
+                    for t in node.targets:
+                        if isinstance(t, ast.Name):
+                            set_names.add(t.id)
+        S = lambda x: _is_set_expr(x, set_names, set_funcs)      # noqa
         for node in ast.walk(tree):
             if isinstance(node, (ast.For, ast.comprehension)):
                 it = node.iter
-                if _is_set_expr(it, set_names):
+                if S(it):
                     if isinstance(node, ast.For) and _order_insensitive(node.body):
                         continue        # e.g. `for i in a: if i in b: b.remove(i)`: a set difference
                     n_raw += 1
-                elif (isinstance(it, ast.Call) and isinstance(it.func, ast.Name) and it.func.id == "sorted" and it.args
-                      and _is_set_expr(it.args[0], set_names)):
-                    n_sorted += 1
+            elif isinstance(node, ast.Call) and isinstance(node.func, ast.Name) and node.func.id == "sorted" and node.args and S(node.args[0]):
+                n_sorted += 1
+            elif isinstance(node, ast.Call) and isinstance(node.func, ast.Name) and node.func.id in ORDER_EXPOSING_FUNCS and any(S(a) for a in node.args):
+                n_raw += 1
+            elif isinstance(node, ast.Call) and isinstance(node.func, ast.Attribute) and node.func.attr in ORDER_EXPOSING_METHODS and any(S(a) for a in node.args):
+                n_raw += 1
+            elif isinstance(node, ast.Call) and isinstance(node.func, ast.Attribute) and node.func.attr == "pop" and not node.args and S(node.func.value):
+                n_raw += 1
+            elif isinstance(node, ast.AugAssign) and isinstance(node.op, ast.Add) and S(node.value):
+                n_raw += 1
+            elif isinstance(node, ast.Starred) and S(node.value):
+                n_raw += 1
     return (n_raw == 0 and n_sorted > 0), n_sorted + n_raw
 
 
@@ -257,7 +293,7 @@ def main():
     for k, v in sorted(cf.items()):
         facts.append("def %s : Bool := %s" % (k, "true" if v else "false"))
     ok, nsites = set_sites_sorted()
-    facts.append("/-- every loop over a *set* of type names in LanguageCPP/LanguageCsharp iterates `sorted(...)` -/")
+    facts.append("/-- nothing in kojen/*.py exposes the hash order of a set: loops, list()/join()/extend()/... over set-valued expressions go through `sorted(...)` -/")
     facts.append("def setSitesSorted : Bool := %s" % ("true" if ok else "false"))
     facts.append("def setSiteCount : Nat := %d" % nsites)
     facts.append("")
